@@ -147,7 +147,7 @@ def trend(
         y, shifted dependent variable.
     """
     x = np.asarray(x, dtype=np.float64)
-    y = np.asarray(y, dtype=np.float64)
+    y = np.array(y, dtype=np.float64)
     range_x = x[-1] - x[0]
     for i in range(len(x)):
         if normalized:
